@@ -9,4 +9,6 @@ require (
 
 require github.com/smart-core-os/sc-api/go v1.0.0-beta.51
 
+require google.golang.org/grpc v1.67.1 // indirect
+
 replace github.com/smart-core-os/sc-golang => /repo
